@@ -160,6 +160,29 @@ pub struct SeqResult {
     pub reloads_err: u64,
     pub handshakes: u64,
     pub listener_handshakes: u64,
+    pub returning_handshakes: u64,
+    pub resumed_handshakes: u64,
+}
+
+/// a client that keeps its connector (and with it its TLS session cache) across the whole sequence, like the real
+/// `Client` does: handshake against the current acceptor, exchange one byte (so that session tickets are taken in),
+/// and report the leaf the connection is bound to — for a resumed session that is the certificate of the
+/// ORIGINAL handshake. Returns (leaf DER, resumed?).
+async fn handshake_returning(reloader: &CertReloader, connector: &tokio_rustls::TlsConnector) -> Result<(Vec<u8>, bool), String> {
+    let acceptor = reloader.get_acceptor();
+    let (a, b) = tokio::io::duplex(65536);
+    let srv = tokio::spawn(async move { acceptor.accept(b).await });
+    let name = ServerName::try_from("localhost").map_err(|e| e.to_string())?;
+    let mut c = tokio::time::timeout(std::time::Duration::from_secs(10), connector.connect(name, a)).await.map_err(|_| "handshake timeout".to_string())?.map_err(|e| format!("client handshake: {e}"))?;
+    let mut s = srv.await.map_err(|e| e.to_string())?.map_err(|e| format!("server handshake: {e}"))?;
+    s.write_all(b"t").await.map_err(|e| e.to_string())?;
+    s.flush().await.map_err(|e| e.to_string())?;
+    let mut one = [0u8; 1];
+    tokio::time::timeout(std::time::Duration::from_secs(5), c.read_exact(&mut one)).await.map_err(|_| "no byte from the server".to_string())?.map_err(|e| e.to_string())?;
+    let conn = c.get_ref().1;
+    let leaf = conn.peer_certificates().and_then(|v| v.first().map(|c| c.as_ref().to_vec())).ok_or("connection has no peer certificate")?;
+    let resumed = matches!(conn.handshake_kind(), Some(rustls::HandshakeKind::Resumed));
+    Ok((leaf, resumed))
 }
 
 /// handshake with the real `Server::listen` loop (reloadable TLS) over loopback TCP; returns the presented leaf DER
@@ -174,7 +197,7 @@ async fn handshake_listener(addr: &str) -> Result<Vec<u8>, String> {
 }
 
 pub async fn run_sequence(pairs: &[Pair], steps: &[Step], check_expiry: bool, tag: &str, via_listener: bool) -> SeqResult {
-    let mut res = SeqResult { problems: Vec::new(), reloads_ok: 0, reloads_err: 0, handshakes: 0, listener_handshakes: 0 };
+    let mut res = SeqResult { problems: Vec::new(), reloads_ok: 0, reloads_err: 0, handshakes: 0, listener_handshakes: 0, returning_handshakes: 0, resumed_handshakes: 0 };
     let dir = std::env::temp_dir().join(format!("verif-c18-{}-{}", std::process::id(), tag));
     let _ = std::fs::remove_dir_all(&dir);
     std::fs::create_dir_all(&dir).expect("tmp dir");
@@ -208,6 +231,12 @@ pub async fn run_sequence(pairs: &[Pair], steps: &[Step], check_expiry: bool, ta
             res.problems.push(("setup".into(), "listener_did_not_start".into(), addr));
         }
     }
+    // a client that comes back again and again with the same connector (session cache and all)
+    let returning = {
+        let rec = Arc::new(Recorder { seen: Mutex::new(None) });
+        let cfg = rustls::ClientConfig::builder().dangerous().with_custom_certificate_verifier(rec).with_no_client_auth();
+        tokio_rustls::TlsConnector::from(Arc::new(cfg))
+    };
     // a connection established before everything else must keep working
     let (_, mut old_c, mut old_s) = match handshake(&reloader).await {
         Ok(x) => x,
@@ -269,6 +298,20 @@ pub async fn run_sequence(pairs: &[Pair], steps: &[Step], check_expiry: bool, ta
                 }
             }
             Err(e) => res.problems.push(("handshake".into(), "handshake_failed".into(), format!("{what}: {e}"))),
+        }
+        // ... and a client that has been here before (it may offer to resume an earlier session)
+        match handshake_returning(&reloader, &returning).await {
+            Ok((leaf, resumed)) => {
+                res.returning_handshakes += 1;
+                if resumed {
+                    res.resumed_handshakes += 1;
+                }
+                if leaf != pairs[active].der {
+                    let got = pairs.iter().find(|p| p.der == leaf).map(|p| p.name).unwrap_or("an unknown certificate");
+                    res.problems.push(("returning_client_handshake".into(), "wrong_certificate_presented".into(), format!("{what}: a client that connected earlier and reconnects with the same connector ends up on a connection bound to {got}{}, the active pair is {}", if resumed { " (resumed TLS session: no certificate was sent, the new key was never used)" } else { "" }, pairs[active].name)));
+                }
+            }
+            Err(e) => res.problems.push(("returning_client_handshake".into(), "handshake_failed".into(), format!("{what}: {e}"))),
         }
         // ... and the very next connection accepted by the server's listen loop
         if let Some((addr, _)) = &listener {
@@ -419,6 +462,8 @@ pub fn run(ctx: Ctx) -> Report {
             rep.add("reloads_failed_as_they_must", r.reloads_err);
             rep.add("handshakes_inspected", r.handshakes);
             rep.add("listener_handshakes_inspected", r.listener_handshakes);
+            rep.add("returning_client_handshakes_inspected", r.returning_handshakes);
+            rep.add("returning_client_handshakes_resumed", r.resumed_handshakes);
             rep.add("steps", steps.len() as u64);
             if rep.samples.len() < 3 && shard == 0 {
                 rep.sample(describe(&steps[..steps.len().min(10)], *expiry));
@@ -499,9 +544,9 @@ async fn stress(pairs: &[Pair]) -> (Vec<String>, u64, u64) {
 pub fn meta() -> CheckMeta {
     CheckMeta {
         level: "fault_enumeration",
-        rule: "on-disk fault states of the certificate/key files driven against the real CertReloader (rcgen pairs A, B, C and an expired E): two-file updates with a reload between every pair of writes in both orders, each file replaced alone by another pair's file / garbage / empty / missing / the other kind of file, truncation prefixes of the new certificate and of the new key (quick: 64+32 evenly spaced cuts plus both sides of every line boundary and the last bytes; thorough: every byte) with a reload at each, random 20-200 step sequences, check_expiry on/off; thorough adds a thread rewriting both files while reloads run. After EVERY step an in-memory TLS handshake against get_acceptor() records the presented leaf; oracle: reload() is Ok iff the files hold a complete, matching (and, with check_expiry, unexpired) pair as known by construction; after Err the presented leaf, cert info, last-reload instant and reload count are unchanged; after Ok the leaf is the pair on disk; a TLS connection established at the start answers a ping after every step. distinct_nontrivial = distinct step sequences. For the hand-written update sequences and every third other one a real Server::new_with_reloadable_tls(..).listen() loop runs on the same reloader: after every step the next connection it accepts (loopback TCP + TLS) must present the active pair.".into(),
+        rule: "on-disk fault states of the certificate/key files driven against the real CertReloader (rcgen pairs A, B, C and an expired E): two-file updates with a reload between every pair of writes in both orders, each file replaced alone by another pair's file / garbage / empty / missing / the other kind of file, truncation prefixes of the new certificate and of the new key (quick: 64+32 evenly spaced cuts plus both sides of every line boundary and the last bytes; thorough: every byte) with a reload at each, random 20-200 step sequences, check_expiry on/off; thorough adds a thread rewriting both files while reloads run. After EVERY step an in-memory TLS handshake against get_acceptor() records the presented leaf; oracle: reload() is Ok iff the files hold a complete, matching (and, with check_expiry, unexpired) pair as known by construction; after Err the presented leaf, cert info, last-reload instant and reload count are unchanged; after Ok the leaf is the pair on disk; a TLS connection established at the start answers a ping after every step. distinct_nontrivial = distinct step sequences. For the hand-written update sequences and every third other one a real Server::new_with_reloadable_tls(..).listen() loop runs on the same reloader: after every step the next connection it accepts (loopback TCP + TLS) must present the active pair. A returning client (one connector with its TLS session cache kept for the whole sequence, one byte exchanged per connection so that session tickets are taken in) also handshakes after every step: the connection it ends up on must be bound to the active pair; resuming a session that was established under a replaced pair is a violation (most handshakes between reloads do resume, which is fine).".into(),
         assumptions: vec!["a file counts as complete when the whole PEM block is present (a missing final newline does not matter)".into(), "rcgen/rustls generate and verify the pairs".into()],
-        floors: vec![("reloads_succeeded", 50), ("reloads_failed_as_they_must", 150), ("handshakes_inspected", 500), ("listener_handshakes_inspected", 300)],
+        floors: vec![("reloads_succeeded", 50), ("reloads_failed_as_they_must", 150), ("handshakes_inspected", 500), ("listener_handshakes_inspected", 300), ("returning_client_handshakes_inspected", 1000)],
         exhaustive: false,
     }
 }
